@@ -54,14 +54,19 @@ quick.append(t(secs=180, jobs=8, n=5, d=1, classes=2, distinct=1))
 quick.append(t(secs=300, jobs=8, n=4, d=1, classes=2, wpat=-2, wmax=2))
 quick.append(t(secs=400, jobs=16, n=5, d=1, classes=2))
 # min_weight_leaf = 0 is accepted by the parameter guard ("no minimum"): fit must return a tree
-# (FINDING on the tree at the time of writing: panic `assertion failed: n_samples > 0.0`, algorithm.rs:676)
+# (failed before /repo f440bd5: panic `assertion failed: n_samples > 0.0`, algorithm.rs:676)
 quick.append(t(n=3, d=1, classes=2, mwl4=0))
-# concrete neighbouring doubles 2^40, 2^40+ulp (outside the exact integer grid, so one concrete path per labelling):
-# the midpoint (a+b)/2 rounds to a, fit routes `a <= split` left, predict routes `a < split` right
-# (FINDING on the tree at the time of writing: training row a is predicted with the label of b's leaf;
-#  algorithm.rs:303 midpoint, :350 `<=`, :642 `<`)
+# concrete neighbouring doubles 2^e + i*ulp (outside the exact integer grid, so one concrete path per labelling):
+# midpoints (a+b)/2 are rounded.  Rounded down to a: fit routes `a <= split` left and predict must do the same
+# (failed before /repo e17f219).  Rounded up to b (odd a): `<= split` sent every row left, the right child was missing
+# and the left child was fitted on the same rows again -- unbounded recursion / malformed tree (failed before 818cd50).
 quick.append(t(secs=30, n=2, d=1, classes=2, adj=40))
+quick.append(t(secs=30, n=3, d=1, classes=2, adj=40, depth=2))
 quick.append(t(secs=30, n=3, d=1, classes=2, adj=40))
+quick.append(t(secs=30, n=4, d=1, classes=3, adj=40, depth=3))
+quick.append(t(secs=30, n=4, d=1, classes=3, adj=37, crit=ENT))
+quick.append(t(secs=30, n=4, d=2, classes=2, adj=44, depth=2, crit=ENT))
+quick.append(t(secs=60, n=5, d=1, classes=2, adj=50, wpat=-2, wmax=2))
 
 thorough = list(quick)
 for crit in (GINI, ENT):
